@@ -543,6 +543,20 @@ func faultVariant(out *os.File, bseed int64, steps, at int, ft *memfile.Fault, p
 			// release the version it worked on), unrelated allocation that reuses
 			// anything freed by mistake, then a look at everything
 			switch t.kind {
+			case "flush", "collwrite":
+				// a Flush / Collection.Write that failed part-way, then - every other
+				// time - a FlushRevert right away: it must go back exactly one
+				// completed flush, whatever the failed call left on the file
+				if fault.Hit && rand.New(rand.NewSource(bseed*37+int64(at))).Intn(2) == 0 {
+					if !w.Revert(fr.main, nil) {
+						return counts, lens, false
+					}
+					for _, id := range w.storeIDs() {
+						if !w.Obs(w.stores[id], "peek", "C07") || !w.Obs(w.stores[id], "api", "C07") {
+							return counts, lens, false
+						}
+					}
+				}
 			case "set", "del", "warmdel", "warmset", "coldset", "colddel", "halfset", "halfdel", "rewarmdel":
 				if fault.Hit && fr.main.St.GetCollection(t.name) != nil {
 					arng := rand.New(rand.NewSource(bseed*31 + int64(at)))
